@@ -3,6 +3,7 @@ package vk
 import (
 	"fmt"
 	"runtime"
+	"runtime/debug"
 )
 
 // Outcome classifies how a call ended.
@@ -37,6 +38,7 @@ type Result struct {
 // integer divide by zero, recovered memory fault) is a RuntimeFault; every
 // other panic value is taken to be a deliberate library panic.
 func Call(f func()) (res Result) {
+	debug.SetPanicOnFault(true)
 	defer func() {
 		if r := recover(); r != nil {
 			res.Value = r
